@@ -356,6 +356,12 @@ def pmap_collect(ctx, items, recs):
     from vlib.par import merge
     chunks = [items[i::16] for i in range(16) if items[i::16]]
     with mp.get_context("fork").Pool(len(chunks)) as pool:
-        for col, rs in pool.imap_unordered(_replay_chunk, chunks):
+        it = pool.imap_unordered(_replay_chunk, chunks)
+        for _ in range(len(chunks)):
+            try:
+                col, rs = it.next(timeout=700)
+            except mp.TimeoutError:
+                pool.terminate()
+                raise MachineryError("a gated replay worker died or hung")
             merge(ctx, col)
             recs.extend(rs)
